@@ -18,7 +18,10 @@ func TestC18(t *testing.T) {
 		manyNames := false
 		for i := 0; i < n; i++ {
 			d := Decl18{Style: intn(rt, 7, "style")}
-			if chance(rt, 1, 3, "isarg") {
+			if chance(rt, 1, 8, "version") {
+				d.Style = SVersion
+			}
+			if d.Style != SVersion && chance(rt, 1, 3, "isarg") {
 				d.IsArg = true
 				d.Name = rapid.SampledFrom(c18ArgNames).Draw(rt, "argname")
 			} else {
